@@ -146,6 +146,9 @@ MUTANTS = [
     M('C20-convergence-touches-kt', 'C20', 'R3/convergence-block-is-effect-free', (OPT, '                    convergence_count += 1;', '                    convergence_count += 1;\n                    kt *= 0.5;')),
     M('C20-convergence-threshold-3', 'C20', 'R3/exit-after', (OPT, 'if convergence_count > 5 {', 'if convergence_count > 3 {')),
     M('C20-unwrap-in-main', 'C20', 'R', (MAIN, '.ok_or_else(|| anyhow!("Error in running optimisation."))?;', '.unwrap();')),
+    M('C20-basis-may-be-empty', 'C20', 'Uniform::new', (PACK, '        basis.append(&mut self.cell.get_degrees_of_freedom());', '        if self.occupied_sites.len() > 1 {\n            basis.append(&mut self.cell.get_degrees_of_freedom());\n        }')),
+    M('C20-basis-cleared-per-site', 'C20', 'Uniform::new', (PACK, '            basis.append(&mut site.get_basis(1));', '            basis.clear();\n            basis.append(&mut site.get_basis(1));')),
+    M('C20-assert-on-input', 'C20', 'explicit-panic', (SITE, '        let dof = self.wyckoff.degrees_of_freedom();', '        let dof = self.wyckoff.degrees_of_freedom();\n        assert!(rot_symmetry < 7);')),
     M('C20-inner-loop-other-bound', 'C20', 'R2/inner-trip-count', (OPT, 'for _ in 0..self.inner_steps {', 'for _ in 0..self.steps {')),
 ]
 
